@@ -28,13 +28,29 @@ def load_chipdata(cfg):
     if cfg == "absent":
         d = os.path.join(harness.scratch_root(), "chipdata_absent")
         os.makedirs(d, exist_ok=True)
+        with open(os.path.join(d, "._explorer_20.json"), "wb") as f:      # a hidden file is not a chip data file
+            f.write(b"\x00\x05\x16\x07 resource fork")
+        with open(os.path.join(d, "README.txt"), "w") as f:
+            f.write("chip data files go here\n")
+    elif cfg == "damaged":
+        # one intact and one truncated chip data file: every decode that needs the chip data fails the same way
+        import shutil
+        d = os.path.join(harness.scratch_root(), "chipdata_damaged")
+        shutil.rmtree(d, ignore_errors=True)
+        shutil.copytree(os.path.join(env.FIXTURES, "chipdata_full"), d)
+        victim = sorted(f for f in os.listdir(d) if f.endswith(".json") and not f.startswith("."))[-1]
+        with open(os.path.join(d, victim), "r+b") as f:
+            f.truncate(os.path.getsize(os.path.join(d, victim)) // 2)
     else:
         d = os.path.join(env.FIXTURES, "chipdata_" + cfg)
     data.__file__ = os.path.join(d, "__init__.py")
     chips = {}
-    for f in glob.glob(os.path.join(d, "*.json")):
+    for f in glob.glob(os.path.join(d, "*.json")):          # glob: hidden files are not matched
         with open(f) as fd:
-            j = json.load(fd)
+            try:
+                j = json.load(fd)
+            except ValueError:
+                continue
         chips[j["model_ec"]["id"]] = j
     DATA["cfg"], DATA["chips"] = cfg, chips
 
